@@ -98,11 +98,10 @@ THEOREMS = [
 ]
 CASE_TIMEOUT = 20
 
-# notes/C19_defect_2.md: a directory or file name that contains ".tex" / ".pdf" makes LaTeXToPDF / PDFToPNG name
-# files that do not exist.  The cases that show it are generated only when this is True (set it after the patch
-# notes/C19_defect_2.patch is applied and pdfPathOf / pngPathOf of the model are adapted; until then the failing
-# input is notes/C19_defect_2_replay.json: `./check C19 --replay notes/C19_defect_2_replay.json`).
-INNER_EXTENSION_CASES = False
+# notes/C19_defect_2.md (fixed in /repo by 7f5ee11): a directory or file name that contains ".tex" / ".pdf" made
+# LaTeXToPDF / PDFToPNG name files that do not exist.  Regression cases: histories with such names (below) and
+# corpus/C19/inner_extension.json.
+INNER_EXTENSION_CASES = True
 
 KNOWN_SIG = "stale-pdf:run-starts-with-missing-source-while-pdf-exists"
 KNOWN_TAG = "known-class stale artefact"
@@ -1048,7 +1047,7 @@ def _oracle_stage(case, res):
         if (case["out"] or {}).get("filetype") != "tex":
             return None if not log and not any(f["w"] for f in files.values()) else "LaTeXToPDF touched a value that is not tex"
         tex = case["data"]["path"]
-        pdf = tex.replace(".tex", ".pdf")
+        pdf = tex[:-4] + ".pdf" if tex.endswith(".tex") else tex.replace(".tex", ".pdf")
         launched = ["latex", tex] in log
         must = cin is True or pdf not in pre or case["overwrite"]
         must_not = not case["overwrite"] and pdf in pre and cin is False
@@ -1068,7 +1067,7 @@ def _oracle_stage(case, res):
         if (case["out"] or {}).get("filetype") != "pdf":
             return None if not log and not any(f["w"] for f in files.values()) else "PDFToPNG touched a value that is not pdf"
         pdf = case["data"]["path"]
-        png = pdf.replace(".pdf", "") + "." + case["format"]
+        png = (pdf[:-4] if pdf.endswith(".pdf") else pdf.replace(".pdf", "")) + "." + case["format"]
         launched = ["topng", pdf] in log
         must = cin is True or png not in pre or case["overwrite"]
         if must and not launched:
@@ -1459,6 +1458,23 @@ def _stage_cases():
                             cases.append({"op": "latex", "overwrite": ow, "world": {"files": fs, "clock": 9},
                                           "data": {"path": f"{OUT}/f.tex"},
                                           "out": {"filetype": ft, "fileext": "tex", "filename": "f", "changed": cin}})
+    # file names with ".tex" / ".pdf" inside, and names that do not end with the extension
+    # (a name that does not end with ".tex" in a directory with ".tex" inside still gets the old replacement and a
+    # directory that does not exist; RenderLaTeX always gives the extension "tex", so this is not generated)
+    for tex in (f"{OUT}/a.tex.d/f.tex", f"{OUT}/x.tex_f.tex", f"{OUT}/f.tex.bak"):
+        for cin in (None, True, False):
+            for pdf_there in (False, True):
+                ref = tex[:-4] + ".pdf" if tex.endswith(".tex") else tex.replace(".tex", ".pdf")
+                fs = [{"p": tex, "c": {"tex": 1, "deps": []}, "m": 3}]
+                if pdf_there:
+                    fs.append({"p": ref, "c": {"pdf": [{"tex": 1, "deps": []}, []]}, "m": 5})
+                cases.append({"op": "latex", "overwrite": False, "world": {"files": fs, "clock": 9},
+                              "data": {"path": tex}, "out": {"filetype": "tex", "changed": cin}})
+    for pdf in (f"{OUT}/a.pdf.d/f.pdf", f"{OUT}/x.pdf_f.pdf", f"{OUT}/f.pdf.bak"):
+        for cin in (None, True):
+            cases.append({"op": "png", "overwrite": False, "format": "png",
+                          "world": {"files": [{"p": pdf, "c": {"pdf": [{"tex": 1, "deps": []}, []]}, "m": 2}], "clock": 9},
+                          "data": {"path": pdf}, "out": {"filetype": "pdf", "changed": cin}})
     # PDFToPNG.run on one value
     G = {"png": {"pdf": [T, [A]]}}
     for ow in (False, True):
